@@ -109,6 +109,13 @@ class TreeGen:
         return e
 
     def colon(self, d):
+        if self.rng.random() < 0.08:
+            # a numerically scaled term "2:a", "3:a:b": the literal does not count towards the interaction degree
+            lead = ("bin", ":", ("atom", self.rng.choice(["2", "3", "0.5", "10"])), self.pow(d))
+            sub = self.pow
+            while self.rng.random() < 0.35:
+                lead = ("bin", ":", lead, sub(d))
+            return lead
         return self.chain([":"], self.pow, d, 0.35)
 
     def mul(self, d):
